@@ -37,6 +37,17 @@ function obs() {
   var ld = Object.getOwnPropertyDescriptor(A, "length");
   if (ld.value !== A.length || ld.enumerable || ld.configurable) return {err: "length descriptor inconsistent"};
   if (!Array.isArray(A)) return {err: "not an array any more"};
+  // a reader that has hole-free fast paths must agree with the element states just observed (own prototype chain without indices)
+  if (CFG.proto === "none" && A.length <= 70000) {
+    var accessor = false;
+    for (var i = 0; i < C.length; i++) if (el[i].k === "acc") accessor = true;
+    if (!accessor) {
+      var holes = A.length > present.length + BASE, undef = false;
+      for (var i = 0; i < C.length; i++) if (el[i].k === "data" && el[i].v === "u" && C[i] < A.length) undef = true;
+      if (A.includes(undefined) !== (holes || undef)) return {err: "includes(undefined) is " + !(holes || undef) + " on an array of length " + A.length + " with " + (present.length + BASE) + " elements"};
+      if ((A.indexOf(undefined) !== -1) !== undef) return {err: "indexOf(undefined) is " + A.indexOf(undefined)};
+    }
+  }
   return {el: el, len: alen(A.length), lenW: tf(ld.writable), ext: tf(Object.isExtensible(A))};
 }
 function reset() {
